@@ -104,6 +104,22 @@ class Check:
         self.path_stats['solver_s'] += st['solver_s']
         return paths
 
+    def section(self, name, fn, *args):
+        """Run one symbolic section of a contract.  If the code under verification uses something outside the model (an engine
+        limit, not a property violation), the section is DEMOTED: the property then rests on its bounded stand-in for this part."""
+        try:
+            fn(self, *args)
+            return True
+        except (core.Unsupported, core.PathLimit) as e:
+            reason = f'{type(e).__name__}: {e}'
+        except Exception as e:   # contract code met an unexpected shape of the code (mock without that operation, missing log entry)
+            reason = f'contract not applicable to this shape of the code: {type(e).__name__}: {e}'
+        print(f'DEMOTED function={name} reason={reason[:300]}')
+        self.demoted.append({'section': name, 'reason': reason[:500]})
+        self.level = 'other'
+        self.level_note = (self.level_note + ' ' if self.level_note else '') + f'section {name} demoted to its bounded stand-in ({reason[:120]})'
+        return False
+
     def bounded_check(self, name, tool, bound, cases, failures, detail=''):
         self.bounded.append({'name': name, 'tool': tool, 'bound': bound, 'cases': cases, 'failures': len(failures),
                              'detail': detail})
@@ -300,6 +316,7 @@ class Check:
             'path_exploration': {'paths': self.paths, **{k: round(v, 2) if isinstance(v, float) else v for k, v in self.path_stats.items()}},
             'functions_under_contract': self.functions,
             'bounded_checks': self.bounded,
+            'demoted_sections': self.demoted,
             'known_findings_matched': self.known_hits,
             'known_finding_obligations_not_counted': [o.name for o in known_obls],
             'obligation_names': [o.name for o in self.obls][:400],
